@@ -252,3 +252,40 @@ func VH_C18_WriteInOnCloseOfFailedConn() {
 	vAssert("C18.farewell.bystander_untouched", w.vUntouched(by))
 	vReach("C18.farewell.end")
 }
+
+// One failure among the system calls of the close sequence itself (residual flush write, epoll_ctl del, close(2)),
+// whatever started the close: the connection still ends closed exactly once with its descriptor released, the
+// failure does not stop the engine and does not reach the bystander.
+//
+//verif: mode=int unwind=6
+func VH_C18_FaultWhileClosing() {
+	et := vNondetBool("et")
+	w := vNewWorld(et, 1<<20)
+	c := w.vOpenConnX(vConnFD, "c", false, false, true)
+	c2 := w.vOpenConn(vConn2FD, "c2", false, false)
+	by := vSnap(c2)
+	s := &vk.S[vConnFD]
+	vk.MaxReads, vk.MaxWrites = 1, 3
+	cause := vPick("cause", 3)
+	var err error
+	switch cause {
+	case 0: // orderly close by the peer
+		s.Fin = true
+		vk.FaultBudget = 1
+		err = c.processIO(vConnFD, 0x1, 0)
+	case 1: // the handler answers Close
+		s.Pending = vNondetBytes("pending", 3)
+		w.h.onTraffic = func(cc *conn) Action { return Close }
+		vk.FaultBudget = 1
+		err = c.processIO(vConnFD, 0x1, 0)
+	case 2: // Close() request from another goroutine, executed by the loop
+		_ = c.Close()
+		vk.FaultBudget = 1
+		_, err = w.el.poller.VRunOne()
+	}
+	g := w.h.g(c)
+	vAssert("C18.closing.engine_keeps_running", vNotSentinel(err))
+	vAssert("C18.closing.bystander_untouched", w.vUntouched(by))
+	vAssert("C18.closing.closed_exactly_once_descriptor_released", g.closes == 1 && w.vClosedOK(c, vConnFD) && w.el.countConn() == 1)
+	vReach("C18.closing.end")
+}
